@@ -47,6 +47,7 @@ type (
 		val aval
 		typ types.Type
 	}
+	acb   struct{ name string } // a callback supplied by the case: calling it asks the oracle ("callback:<name>")
 	afunc struct {
 		fn   *ssa.Function
 		free []aval
@@ -68,15 +69,15 @@ type absEnv struct {
 	maxSteps int
 	// undecidable branches are explored both ways (see runForks)
 	// slice mode (evalGlobal): in sliceFn only the instructions of sliceSet are executed, up to sliceStop
-	sliceFn   *ssa.Function
-	sliceSet  map[ssa.Instruction]bool
-	sliceStop *ssa.Store
+	sliceFn    *ssa.Function
+	sliceSet   map[ssa.Instruction]bool
+	sliceStop  *ssa.Store
 	newMapOpen func(key string) bool // openness given to http.Header maps the evaluated code creates
-	forkPlan []bool
-	forkLog  []bool
-	forkMemo map[string]bool
-	noFork   bool
-	trace    []string
+	forkPlan   []bool
+	forkLog    []bool
+	forkMemo   map[string]bool
+	noFork     bool
+	trace      []string
 }
 
 type absAbort struct{ why string }
@@ -216,9 +217,10 @@ func (e *absEnv) store(o *aobj, path string, v aval) {
 }
 
 type absFrame struct {
-	fn   *ssa.Function
-	regs map[ssa.Value]aval
-	free []aval
+	fn     *ssa.Function
+	regs   map[ssa.Value]aval
+	free   []aval
+	defers []func()
 }
 
 func (e *absEnv) val(fr *absFrame, v ssa.Value) aval {
@@ -314,6 +316,8 @@ func describeAval(v aval) string {
 		return "nil"
 	case aunk:
 		return "?(" + t.why + ")"
+	case acb:
+		return "callback " + t.name
 	case aptr:
 		return "&" + t.obj.name + "." + t.path
 	case astrv, avals, amap:
@@ -733,8 +737,35 @@ func (e *absEnv) call(fn *ssa.Function, args []aval, free []aval, depth int) ava
 				default:
 					fr.regs[t] = aunk{"type assertion on " + describeAval(x)}
 				}
-			case *ssa.Defer, *ssa.RunDefers, *ssa.Go:
-				// deferred and concurrent calls are outside the abstraction (locks, logging)
+			case *ssa.Defer:
+				// arguments are evaluated now, the call happens when the function returns
+				cc := t.Call
+				var fv aval
+				if !cc.IsInvoke() {
+					fv = e.val(fr, cc.Value)
+				}
+				var args []aval
+				for _, a := range cc.Args {
+					args = append(args, e.val(fr, a))
+				}
+				if f, ok := fv.(afunc); ok && len(f.fn.Blocks) > 0 && fnPkg(f.fn) != nil && isModPkg(fnPkg(f.fn).Path()) {
+					fr.defers = append(fr.defers, func() { e.call(f.fn, args, f.free, depth+1) })
+				} else if f := cc.StaticCallee(); f != nil && len(f.Blocks) > 0 && fnPkg(f) != nil && isModPkg(fnPkg(f).Path()) {
+					var free []aval
+					if mc, ok := cc.Value.(*ssa.MakeClosure); ok {
+						for _, b := range mc.Bindings {
+							free = append(free, e.val(fr, b))
+						}
+					}
+					fr.defers = append(fr.defers, func() { e.call(f, args, free, depth+1) })
+				}
+			case *ssa.RunDefers:
+				for i := len(fr.defers) - 1; i >= 0; i-- {
+					fr.defers[i]()
+				}
+				fr.defers = nil
+			case *ssa.Go:
+				// concurrent calls are outside the abstraction
 			case *ssa.Panic:
 				e.abort("reaches an explicit panic in %s", fn.Name())
 			default:
@@ -781,6 +812,8 @@ func (e *absEnv) doCall(fr *absFrame, c *ssa.CallCommon, depth int) aval {
 		switch bi.Name() {
 		case "ssa:wrapnilchk":
 			return e.val(fr, c.Args[0])
+		case "recover":
+			return anil{} // panics are not modelled
 		case "len":
 			switch x := e.val(fr, c.Args[0]).(type) {
 			case aslice:
@@ -887,9 +920,21 @@ func (e *absEnv) doCall(fr *absFrame, c *ssa.CallCommon, depth int) aval {
 			free = append(free, e.val(fr, b))
 		}
 	default:
-		if f, ok := e.val(fr, c.Value).(afunc); ok {
+		switch f := e.val(fr, c.Value).(type) {
+		case afunc:
 			callee = f.fn
 			free = f.free
+		case acb:
+			var args []aval
+			for _, a := range c.Args {
+				args = append(args, e.val(fr, a))
+			}
+			if e.ext != nil {
+				if v, ok := e.ext("callback:"+f.name, args); ok {
+					return v
+				}
+			}
+			return aunk{"callback " + f.name}
 		}
 	}
 	var args []aval
